@@ -462,6 +462,7 @@ func (c *Ctx) strongFieldRefs(p *packages.Package, info *types.Info, n ast.Node,
 		if s == nil || s.Kind() != types.FieldVal || !isT(s.Recv()) {
 			return true
 		}
+		into["~"+sel.Sel.Name] = true // any reference (used for payload fields)
 		// climb the parents
 		strong := false
 		child := ast.Node(sel)
@@ -667,6 +668,12 @@ func (c *Ctx) checkCaseFieldCoverage(rule string, d dispatcher, nodeIface string
 				why, exc := except[key]
 				if !exc {
 					why, exc = except[f.Name+":"+key]
+				}
+				if !child {
+					// payload (operator, label, literal text): any use counts
+					if refs["~"+fld.Name()] || (escapes && pkgUsed["~"+fld.Name()]) {
+						refs[fld.Name()] = true
+					}
 				}
 				ok := refs[fld.Name()] || exc || (escapes && pkgUsed[fld.Name()])
 				det := fmt.Sprintf("the %s case of %s must use %s (directly or in a helper that receives the node)", tn.Name(), f.Name, key)
